@@ -99,10 +99,10 @@ def centre(ax, i):
     return ax["o"] + i * ax["s"]
 
 
-def layout_jobs(H, W, conns, events=False, snap=0, tag="", desc=False, keep=1, of=1, seed=0):
+def layout_jobs(H, W, conns, events=False, snap=0, tag="", desc=False, descx=False, keep=1, of=1, seed=0):
     """every layout x every (start, goal) x connectivity; points at the cell centres of unit axes.
     keep/of < 1: a seeded pseudo-random keep/of fraction of that space (quick tier)"""
-    yax, xax = unit_axis(H, desc), unit_axis(W)
+    yax, xax = unit_axis(H, desc), unit_axis(W, descx)
     pick = random.Random("%s|%d|%d|%d|%d" % (tag, H, W, seed, of))
     jobs = []
     for bits in itertools.product([0, 1], repeat=H * W):
@@ -206,6 +206,13 @@ COORD_SYSTEMS = [
     ("step1", (Fraction(0), Fraction(1)), (Fraction(0), Fraction(1))),
     ("step1_desc_y", (Fraction(3), Fraction(-1)), (Fraction(10), Fraction(1))),
     ("step0.7_x_2.5_y", (Fraction(1, 2), Fraction(5, 2)), (Fraction(7, 10), Fraction(7, 10))),
+    # descending x (ascending y), both descending: a mirror slip on either axis must show
+    ("step0.1_desc_x", (Fraction(1, 10), Fraction(1, 10)), (Fraction(4, 10), Fraction(-1, 10))),
+    ("step1/3_desc_x_offset", (Fraction(-5, 3), Fraction(1, 3)), (Fraction(7, 3), Fraction(-1, 3))),
+    ("step0.25_desc_both", (Fraction(9, 2), Fraction(-1, 4)), (Fraction(-1, 4), Fraction(-1, 4))),
+    ("step30_desc_both", (Fraction(45), Fraction(-30)), (Fraction(-201, 2), Fraction(-30))),
+    ("step1_desc_x", (Fraction(0), Fraction(1)), (Fraction(14), Fraction(-1))),
+    ("step0.7_desc_x_2.5_desc_y", (Fraction(8), Fraction(-5, 2)), (Fraction(7, 2), Fraction(-7, 10))),
 ]
 
 
@@ -242,8 +249,9 @@ def snap_jobs(shapes):
     """one crossable cell t (plus, in a variant, the cells farther away than t): the other end point
     given at c != t with snapping on - at every displacement including the far corner"""
     jobs = []
-    for H, W in shapes:
-        yax, xax = unit_axis(H, desc=True), unit_axis(W)
+    for k, (H, W) in enumerate(shapes):
+        # descending y / descending x / both, in turn
+        yax, xax = unit_axis(H, desc=(k % 3 != 1)), unit_axis(W, desc=(k % 3 != 0))
         for ci in range(H * W):
             for ti in range(H * W):
                 if ci == ti:
@@ -487,7 +495,7 @@ def run_code(ctx, tally, rng):
               for (H, W) in rgrids]
     # snapping on the 3x3 space (quick: a seeded twelfth)
     k, of = ctx.pick((1, 12), (1, 1))
-    groups.append(("R-snap", layout_jobs(3, 3, (8,), snap=1, tag="replay_snap", keep=k, of=of, seed=ctx.seed)))
+    groups.append(("R-snap", layout_jobs(3, 3, (8,), snap=1, tag="replay_snap", descx=True, keep=k, of=of, seed=ctx.seed)))
     # beyond the exhaustive scope
     sizes = [(4, 4), (4, 6), (5, 5), (6, 5), (5, 7), (7, 7), (6, 6), (3, 7)]
     groups.append(("T-mazes", maze_jobs(rng, ctx.pick(500, 12000), sizes)))
@@ -495,7 +503,7 @@ def run_code(ctx, tally, rng):
     if ctx.tier == "thorough":
         cj += coord_jobs(4, 5, COORD_SYSTEMS, conn=4,
                          cross=[[1, 1, 1, 1, 1], [1, 0, 0, 1, 1], [1, 1, 0, 1, 1], [1, 1, 1, 1, 1]])
-        cj += coord_jobs(6, 7, COORD_SYSTEMS[:6], disps=(0, 3, -3, 4, -4))
+        cj += coord_jobs(6, 7, COORD_SYSTEMS[:6] + COORD_SYSTEMS[11:14], disps=(0, 3, -3, 4, -4))
     groups.append(("T-coords", cj))
     groups.append(("T-snap", snap_jobs(ctx.pick([(3, 3), (2, 5), (4, 5)],
                                                 [(3, 3), (2, 5), (4, 5), (5, 5), (2, 7), (6, 4)]))))
@@ -503,7 +511,8 @@ def run_code(ctx, tally, rng):
 
     # ---- step level: every pop of the interpreted search against the model (quick: a seeded 1/32 of 3x3)
     k, of = ctx.pick((1, 32), (1, 1))
-    groups = [("R-steps", layout_jobs(3, 3, (4, 8), events=True, tag="replay_steps", keep=k, of=of, seed=ctx.seed))]
+    groups = [("R-steps", layout_jobs(3, 3, (4, 8), events=True, tag="replay_steps", desc=True, descx=True, keep=k, of=of,
+                                      seed=ctx.seed))]
     if ctx.tier == "thorough":
         groups.append(("R-steps", layout_jobs(2, 4, (4, 8), events=True, tag="replay_steps", desc=True)))
     groups.append(("T-steps", maze_jobs(rng, ctx.pick(60, 1500), [(3, 4), (4, 3), (2, 6)], events=True)))
